@@ -27,7 +27,8 @@ RULE = ("case = series of 4..60 points x x class x y class (or affine data) x me
         " Also: integer-dtype and pandas-Series grids, the documented 'left' keyword of the constant method together with a grid point equal to x[0], Weaver requests after random range-changing histories, method omitted (default linear)."
         " Round-4 classes: method as 4th positional argument / new_x and n by position, n as NumPy integer scalar, series of 1001..1800 samples."
         " Round-5 classes: a 'threads' kind (concurrent interpolation requests, all methods except the FITPACK spline)."
-        " Round-6 classes: n given next to an explicit grid (documented: ignored).")
+        " Round-6 classes: n given next to an explicit grid (documented: ignored)."
+        " Round-7 classes: a 'huge' kind - new grids of 66 000..90 000 points (Weaver.interpolate(n) and explicit grids), methods constant / linear / cubic.")
 REQUIRED_MONITORS = ["threads:interp", "c13:at_samples", "c13:constant", "c13:linear", "c13:affine", "c13:weaver_grid", "c13:grid_rejected"]
 ASSUMPTIONS = ["x strictly increasing, >= 4 points, new grid sorted (non-decreasing)",
                "extrapolation of linear / cubic / spline is outside the statement and not judged"]
